@@ -303,6 +303,9 @@ func c13Gen(r *Rng, tier string, i int) Sx {
 	if r.Chance(1, 5) {
 		opts = append(opts, L(A("lateopt")))
 	}
+	if r.Chance(1, 5) {
+		opts = append(opts, L(A("direct")))
+	}
 	var qs []Sx
 	for k := 0; k < 12; k++ {
 		m := r.Pick(c13HostileMethods)
